@@ -1,7 +1,88 @@
-(* C10 -- property theorems only: each is closed by [exact] of a lemma proved elsewhere. *)
-From Coq Require Import List Arith.
-From Muscle Require Import Conc.Pool Conc.RefCnt Conc.RefProofs.
+(* C10 -- reference-counted and pooled objects are released exactly once, never early.
+   Property theorems only: each is closed by [exact] of a lemma proved in Conc/. *)
+From Coq Require Import List Arith Bool.
+From Muscle Require Import Conc.Pool Conc.PoolProofs Conc.RefCnt Conc.RefInv Conc.RefActs Conc.RefProofs.
+Import ListNotations.
 
-Theorem C10_upd_length : forall A (l : list A) i v, length (upd l i v) = length l.
-Proof. exact upd_length. Qed.
-Print Assumptions C10_upd_length.
+(* ---- the counting protocol: any number of threads, any programs, every reachable state ---- *)
+
+Theorem C10_free_once_after_last : forall N K s0 s, inv1 K s0 -> progs_ok s0 -> reachable N K s0 s ->
+  (forall o, o_cnt (hobj s o) + debts o s = units o s) /\
+  (forall o, is_live (hobj s o) = false -> units o s = 0 /\ o_cnt (hobj s o) = 0) /\
+  (forall t, t < length (s_thr s) -> bad124 (snd (step N K s t)) = false) /\
+  (forall o, o < length (s_heap s) -> o_births (hobj s o) = o_deaths (hobj s o) + (if is_live (hobj s o) then 1 else 0)).
+Proof. exact free_once_after_last. Qed.
+Print Assumptions C10_free_once_after_last.
+
+Theorem C10_never_early : forall N K s0 s, inv1 K s0 -> progs_ok s0 -> reachable N K s0 s ->
+  forall o, slots o s <= o_cnt (hobj s o) /\ (1 <= slots o s -> is_live (hobj s o) = true).
+Proof. exact never_early. Qed.
+Print Assumptions C10_never_early.
+
+Theorem C10_step_preserves : forall N K s t, inv1 K s -> progs_ok s -> t < length (s_thr s) ->
+  inv1 K (fst (step N K s t)) /\ progs_ok (fst (step N K s t)) /\ bad124 (snd (step N K s t)) = false.
+Proof. exact step_inv1. Qed.
+Print Assumptions C10_step_preserves.
+
+Theorem C10_initial_state : forall K max stksize progs, inv1 K (init_state max stksize progs).
+Proof. exact init_inv1. Qed.
+Print Assumptions C10_initial_state.
+
+Theorem C10_no_schedule_violates : forall N K sched s, inv1 K s -> progs_ok s ->
+  Forall (fun t => t < length (s_thr s)) sched ->
+  forallb (fun e => negb (bad124 e)) (snd (run_sched N K s sched)) = true.
+Proof. exact run_sched_safe. Qed.
+Print Assumptions C10_no_schedule_violates.
+
+(* the order of the unrepaired ConstRef::SetRef (release old, store, retain new) violates the
+   property already single-threaded (finding F11; the witness is the corpus case) *)
+Theorem C10_old_order_refuted :
+  exists sched, existsb ev_is_bad (snd (run_sched 1 2 (init_state 0 4 [f11_prog false]) sched)) = true.
+Proof. exact old_order_refuted. Qed.
+Print Assumptions C10_old_order_refuted.
+
+(* ---- the pool's bookkeeping: each critical section preserves the invariant ---- *)
+
+Theorem C10_pool_obtain : forall N hlen p, 1 <= N -> pool_wf N hlen p ->
+  let '(p', o, cr) := pool_obtain N hlen p in obtain_spec N hlen p p' o cr.
+Proof. exact pool_obtain_spec. Qed.
+Print Assumptions C10_pool_obtain.
+
+Theorem C10_pool_release : forall N hlen p o, 1 <= N -> pool_wf N hlen p -> pused N (p_slabs p) o ->
+  let '(p', del) := pool_release N p o in release_spec N hlen p p' o del.
+Proof. exact pool_release_spec. Qed.
+Print Assumptions C10_pool_release.
+
+Theorem C10_pool_drain : forall N hlen p, 1 <= N -> pool_wf N hlen p ->
+  let '(p', dels) := pool_drain N p in drain_spec N hlen p p' dels.
+Proof. exact pool_drain_spec. Qed.
+Print Assumptions C10_pool_drain.
+
+Theorem C10_pool_sanity : forall N hlen p, pool_wf N hlen p ->
+  p_cur p = free_total N (p_slabs p) /\
+  Forall (fun s => length (sl_next s) = N /\ sl_inuse s <= N /\
+                   length (free_nodes N s) = N - sl_inuse s /\ NoDup (free_nodes N s) /\
+                   (forall i, In i (free_nodes N s) -> i < N)) (p_slabs p).
+Proof. exact pool_wf_sanity. Qed.
+Print Assumptions C10_pool_sanity.
+
+Theorem C10_slab_created_only_when_exhausted : forall N hlen p p' o sn, 1 <= N -> pool_wf N hlen p ->
+  pool_obtain N hlen p = (p', o, Some sn) -> p_cur p = 0.
+Proof. exact obtain_creates_only_when_exhausted. Qed.
+Print Assumptions C10_slab_created_only_when_exhausted.
+
+(* ---- non-vacuity ---- *)
+
+Example C10_demo_reachable :
+  let s0 := init_state 1 4 demo_progs in
+  let s := fst (run_sched 2 2 s0 demo_sched) in
+  inv1 2 s0 /\ progs_ok s0 /\ reachable 2 2 s0 s /\
+  2 <= length (s_heap s) /\ o_cnt (hobj s 1) = 2 /\ existsb (fun ob => 1 <=? o_deaths ob) (s_heap s) = true.
+Proof. exact demo_reachable. Qed.
+
+Example C10_repaired_order_fine :
+  existsb ev_is_bad (snd (run_sched 1 2 (init_state 0 4 [f11_prog true]) (repeat 0 40))) = false.
+Proof. exact repaired_order_same_history_fine. Qed.
+
+Example C10_empty_pool_wf : forall N hlen max, pool_wf N hlen (empty_pool max).
+Proof. exact empty_pool_wf. Qed.
